@@ -48,7 +48,8 @@ ENTRY = dict(
           "deadline; then the requested branch task(s) are answered, completion awaited, and the losing events delivered "
           "again (6 times after single-event sequences, so that a stuck catch node shows as a blocked caller). Enforced "
           "replays: the D5 witness for every ordered pair (winner, loser) via sched.Hold/Release on "
-          "ebg.transformer.before_notify, and a forked flow held at flow.await until the winner has run the whole "
+          "ebg.transformer.before_notify, two alternatives held at ebg.transformer.enter and released into the "
+          "compare-and-swap together, and a forked flow held at flow.await until the winner has run the whole "
           "transformer. thorough: all of the above plus seeded perturbation (levels 1, 2) of every schedule point for all "
           "racy histories up to length 3. The Lean driver evaluates the C06 predicate on the recorded history "
           "(ebg_no_branch_continues, ebg_two_branches_continue, ebg_instance_never_completes, "
